@@ -18,6 +18,9 @@ use crate::{
 
 use std::io::{Error as IoError, ErrorKind};
 
+// Logged row images are decoded as they are: whether an operation is undone or redone was decided by the
+// analysis pass. Filtering them through the recovery transaction's snapshot dropped every record whose
+// transaction id is above the `last_committed` stored at the last checkpoint.
 pub struct WalRecuperator {
     dml_executor: DmlExecutor,
     ddl_executor: DdlExecutor,
@@ -296,7 +299,7 @@ impl WalRecuperator {
         let schema = table.schema();
 
         if let Some(row) =
-            Row::from_bytes_checked_with_snapshot(delete_op.undo(), schema, &snapshot)?
+            Some(Row::from_bytes_checked(delete_op.undo(), schema)?)
         {
             let columns = schema.column_indexes();
             self.dml_executor.insert(table_id, &columns, &row)?;
@@ -325,10 +328,10 @@ impl WalRecuperator {
         let schema = table.schema();
 
         if let Some(undo_row) =
-            Row::from_bytes_checked_with_snapshot(update_op.undo(), schema, &snapshot)?
+            Some(Row::from_bytes_checked(update_op.undo(), schema)?)
         {
             if let Some(redo_row) =
-                Row::from_bytes_checked_with_snapshot(update_op.redo(), schema, &snapshot)?
+                Some(Row::from_bytes_checked(update_op.redo(), schema)?)
             {
                 self.dml_executor
                     .update_row(table_id, &row_id, &redo_row, &undo_row)?;
@@ -386,10 +389,10 @@ impl WalRecuperator {
         let schema = table.schema();
 
         if let Some(undo_row) =
-            Row::from_bytes_checked_with_snapshot(update_op.undo(), schema, &snapshot)?
+            Some(Row::from_bytes_checked(update_op.undo(), schema)?)
         {
             if let Some(redo_row) =
-                Row::from_bytes_checked_with_snapshot(update_op.redo(), schema, &snapshot)?
+                Some(Row::from_bytes_checked(update_op.redo(), schema)?)
             {
                 // Redo: apply new state
                 self.dml_executor
@@ -416,7 +419,7 @@ impl WalRecuperator {
         let schema = table.schema();
 
         if let Some(row) =
-            Row::from_bytes_checked_with_snapshot(insert_op.redo(), schema, &snapshot)?
+            Some(Row::from_bytes_checked(insert_op.redo(), schema)?)
         {
             let columns = schema.column_indexes();
             self.dml_executor.insert(table_id, &columns, &row)?;
